@@ -76,15 +76,13 @@ def gen_cases(r, scale):
     return cases
 
 
-def correspond(ctx, exe, model_exe, cases):
+def correspond(ctx, exe, model_exe, cases, run_resilient):
     """returns (oracle failures [(case, out, why)], mismatches [(case, impl, model)])"""
+    lines, err = run_resilient(ctx, exe, cases, 'index-impl')
     path = os.path.join(ctx.build, 'index.cases'); open(path, 'w').write('\n'.join(cases) + '\n')
-    rc, lines, err = ctx.run_lines([exe], path)
     ctx.evaluations += len(cases)
-    ctx.coverage['harness_idx_stats'] = err.strip().splitlines()[-1] if err.strip() else ''
+    ctx.coverage['harness_idx_stats'] = err.strip().splitlines()[-1][-200:] if err.strip() else ''
     bad = []
-    if rc != 0:
-        bad.append((cases[min(len(lines), len(cases) - 1)], err[-400:], 'harness_idx crashed or was killed (exit %s): %s' % (rc, err.strip().splitlines()[-1][-200:] if err.strip() else '')))
     for c, out in zip(cases, lines):
         m = re.search(r'!ORACLE-FAIL:(.*)', out)
         if m: bad.append((c, out[-300:], m.group(1)[:300]))
